@@ -450,4 +450,18 @@ theorem no_lap (x : PSt) (h : PInvAll x) (hw : x.p.pc = .write) (hww : x.p.w ≤
   · rcases hwr.1 with h1 | ⟨h1, h2⟩ <;> omega
   · omega
 
+/-- a state reachable in a well-formed single-producer pipeline: any ring size, any topology with at least one stage and at
+least one handler per stage, either wait strategy, any list of batches of at least one event, **any schedule** -/
+def Reachable (x : PSt) : Prop :=
+  ∃ (n K : Nat) (h : Nat → Nat) (blocking : Bool) (batches : List Nat) (sched : List Tid),
+    0 < K ∧ (∀ k, k < K → 0 < h k) ∧ (∀ b, b ∈ batches → 1 ≤ b) ∧ x = runX (mk n K h blocking batches) sched
+
+theorem reachable_inv {x : PSt} (hr : Reachable x) : PInvAll x := by
+  obtain ⟨n, K, h, bl, bs, sched, hK, hh, hb, rfl⟩ := hr
+  exact inv_run _ sched (inv_init n K h bl bs hK hh hb)
+
+theorem reachable_step {x : PSt} (hr : Reachable x) (t : Tid) : Reachable (stepX x t) := by
+  obtain ⟨n, K, h, bl, bs, sched, hK, hh, hb, rfl⟩ := hr
+  exact ⟨n, K, h, bl, bs, sched ++ [t], hK, hh, hb, by simp [runX, List.foldl_append]⟩
+
 end Ring
